@@ -1,4 +1,5 @@
 import BU.Properties.C08
+import BU.Properties.C08_Key
 #print axioms C08.WFTree.one
 #print axioms C08.WFTree.two
 #print axioms C08.root_eq_spec
@@ -9,3 +10,4 @@ import BU.Properties.C08
 #print axioms C08.path_folds_to_root
 #print axioms C08.address_commits
 #print axioms C08.control_block_verifies
+#print axioms C08.control_block_verifies_for_key
